@@ -23,8 +23,8 @@ structure Ghost where
 def Ghost.init (c : TSN) : Ghost := { cum := c, skipTo := c }
 
 def Ghost.accept (g : Ghost) (t : TSN) : Ghost × Option String :=
-  if sna32LTE t g.cum then (g, some s!"S1/accept: implementation accepted TSN {t.toNat} at or below its cumulative point {g.cum.toNat}")
-  else if g.accepted.contains t.toNat then (g, some s!"dup-accept: TSN {t.toNat} accepted twice")
+  if sna32LTE t g.cum then (g, some s!"[C05,C16,C01] S1/accept: implementation accepted TSN {t.toNat} at or below its cumulative point {g.cum.toNat}")
+  else if g.accepted.contains t.toNat then (g, some s!"[C05,C16,C01] dup-accept: TSN {t.toNat} accepted twice")
   else ({ g with accepted := g.accepted.insert t.toNat }, none)
 
 def Ghost.skip (g : Ghost) (c : TSN) : Ghost :=
@@ -34,7 +34,7 @@ def Ghost.skip (g : Ghost) (c : TSN) : Ghost :=
 def Ghost.observeCum (g : Ghost) (c : TSN) : Ghost × Option String := Id.run do
   if c == g.cum then return (g, none)
   if sna32LT c g.cum then
-    return (g, some s!"S3: cumulative point moved backwards {g.cum.toNat} -> {c.toNat}")
+    return (g, some s!"[C05,C16,C01] S3: cumulative point moved backwards {g.cum.toNat} -> {c.toNat}")
   -- every t in (max cum skipTo, c] must have been accepted
   let mut acc := g.accepted
   let mut err : Option String := none
@@ -45,7 +45,7 @@ def Ghost.observeCum (g : Ghost) (c : TSN) : Ghost × Option String := Id.run do
       let t := lo + BitVec.ofNat 32 d
       if !acc.contains t.toNat then
         if err.isNone then
-          err := some s!"S1: cumulative point {c.toNat} covers TSN {t.toNat} which was neither accepted nor skipped"
+          err := some s!"[C05,C16,C01] S1: cumulative point {c.toNat} covers TSN {t.toNat} which was neither accepted nor skipped"
   -- drop everything now covered
   let keep := acc.fold (fun s t => if sna32LTE (BitVec.ofNat 32 t) c then s else s.insert t) ({} : Std.HashSet Nat)
   acc := keep
@@ -59,16 +59,16 @@ def Ghost.observeSack (g : Ghost) (c : TSN) (blocks : List (Nat × Nat)) : Ghost
   let mut prevEnd : Nat := 0
   let mut total : Nat := 0
   for (s, e) in blocks do
-    if s < 1 || e < s then return (g, some s!"S2: malformed block {s}-{e}")
-    if prevEnd != 0 && s ≤ prevEnd + 1 then return (g, some s!"S2: blocks not sorted/disjoint/non-adjacent at {s}-{e}")
+    if s < 1 || e < s then return (g, some s!"[C05,C16,C01] S2: malformed block {s}-{e}")
+    if prevEnd != 0 && s ≤ prevEnd + 1 then return (g, some s!"[C05,C16,C01] S2: blocks not sorted/disjoint/non-adjacent at {s}-{e}")
     for d in [s:e+1] do
       let t := c + BitVec.ofNat 32 d
       if !g.accepted.contains t.toNat then
-        return (g, some s!"S2: gap block {s}-{e} names TSN {t.toNat} which was never accepted")
+        return (g, some s!"[C05,C16,C01] S2: gap block {s}-{e} names TSN {t.toNat} which was never accepted")
     total := total + (e - s + 1)
     prevEnd := e
   if total != g.accepted.size then
-    return (g, some s!"S4: {g.accepted.size} accepted TSNs above the cumulative point but blocks cover {total}")
+    return (g, some s!"[C05,C16,C01] S4: {g.accepted.size} accepted TSNs above the cumulative point but blocks cover {total}")
   return (g, none)
 
 end SackSpec
